@@ -23,7 +23,7 @@ type c24Case struct {
 	ROM    string `json:"rom"` // path relative to the repository's testdata
 	Sched  int    `json:"sched"`
 	Frames int    `json:"frames"`
-	// Stall: the second in-process run is held up by the host for 1.3 s of wall-clock time in the middle (between two
+	// Stall: the second in-process run is held up by the host for 2.3 s of wall-clock time in the middle (between two
 	// frames): emulated time is counted in machine cycles, so a slow or stalled host must not change anything
 	Stall bool `json:"stall,omitempty"`
 }
@@ -60,7 +60,7 @@ func c24Run(rom string, sched, frames int, stallAt ...int) (hs []uint64, err err
 	ctx := context.Background()
 	for f := 0; f < frames; f++ {
 		if len(stallAt) > 0 && f == stallAt[0] {
-			time.Sleep(1300 * time.Millisecond)
+			time.Sleep(2300 * time.Millisecond)
 		}
 		g.applyButtons(btnSchedules[sched], f)
 		g.frame(ctx)
@@ -125,7 +125,7 @@ func c24Check(c *Ctx) func(l *explore.Local, _ struct{}, cs c24Case) *explore.Fa
 		}
 		what := "same process"
 		if cs.Stall {
-			what = "same process, the second run stalled by the host for 1.3 s in the middle"
+			what = "same process, the second run stalled by the host for 2.3 s in the middle"
 		}
 		if f := diff(a, b, what); f != nil {
 			return f
@@ -171,7 +171,7 @@ func c24ROMs(repo string) []string {
 func init() {
 	register("C24", "exploration", func(c *Ctx) {
 		if c.R != nil {
-			c.R.Rule = "every non-empty ROM under testdata x fixed button schedules: the ROM is run through the real gameboy.New / runFrame with display, speakers and serial writer attached, twice in this process (with another ROM run in between) and once in a separate process; after every frame a hash of (registers, every writable memory region, ROM-window probes, frame pixels, drained samples, serial bytes, RTC and APU generator state) and at the end a hash of the full 64 KiB space and the cartridge RAM dump must agree between all three runs; plus five synthetic guest programs, and three runs in which the host stalls the second run for 1.3 s of wall-clock time between two frames (emulated time is counted in machine cycles, so nothing may change); a case = one (ROM, schedule); non-trivial = distinct final state hashes"
+			c.R.Rule = "every non-empty ROM under testdata x fixed button schedules: the ROM is run through the real gameboy.New / runFrame with display, speakers and serial writer attached, twice in this process (with another ROM run in between) and once in a separate process; after every frame a hash of (registers, every writable memory region, ROM-window probes, frame pixels, drained samples, serial bytes, RTC and APU generator state) and at the end a hash of the full 64 KiB space and the cartridge RAM dump must agree between all three runs; plus five synthetic guest programs, and three runs in which the host stalls the second run for 2.3 s of wall-clock time between two frames (emulated time is counted in machine cycles, so nothing may change); a case = one (ROM, schedule); non-trivial = distinct final state hashes"
 			c.R.Assumptions = []string{"differential replay: there is no nondeterministic choice inside the emulator to enumerate; the check demonstrates that rather than assuming it", "ROMs that the constructor rejects or that run into an undefined opcode are skipped"}
 		}
 		frames, scheds := 60, []int{0, 2}
